@@ -7,7 +7,12 @@ import (
 
 	"github.com/gittuf/gittuf/internal/verifharness/fw"
 	"github.com/gittuf/gittuf/internal/verifharness/scen"
+	"github.com/gittuf/gittuf/pkg/gitstore"
 )
+
+type treeEntry = gitstore.TreeEntry
+
+const kindSubtree = gitstore.KindSubtree
 
 var scratchCounter atomic.Int64
 
